@@ -585,3 +585,22 @@ package iavl
 //@   ensures [committed] err == nil ==> isProofFor(proof, dbtree(version), ord(key))
 //@   ensures [range] !(old(tree.ndb.firstVersion) <= version && version <= old(tree.ndb.latestVersion)) ==> err != nil
 //@   modifies *
+
+// ---------------------------------------------------------------- unsaved_fast_iterator.go (C07/C08): one merge step
+//
+// The iterator merges the persisted index (cursor fastIterator) with the sorted
+// uncommitted additions (unsavedFastNodesToSort[nextUnsavedNodeIdx:]).  When
+// both stand on the SAME key the uncommitted addition wins and BOTH cursors
+// advance — in either direction.
+//@ func (*UnsavedFastIterator).Next(iter)
+//@   props C07 C08
+//@   requires iter != nil && iter.ndb != nil && iter.fastIterator != nil && iter.unsavedFastNodeRemovals != nil && iter.unsavedFastNodeAdditions != nil
+//@   requires 0 <= iter.nextUnsavedNodeIdx
+//@   requires all(iter.unsavedFastNodesToSort, k, smhas[iter.unsavedFastNodeAdditions][ord(k)] && smval[iter.unsavedFastNodeAdditions][ord(k)] != nil && typeis(smval[iter.unsavedFastNodeAdditions][ord(k)], "*github.com/cosmos/iavl/fastnode.Node"))
+//@   let both = itvalid[iter.fastIterator] && iter.nextUnsavedNodeIdx < len(iter.unsavedFastNodesToSort)
+//@   let removed = smhas[iter.unsavedFastNodeRemovals][itkey[iter.fastIterator]] && smval[iter.unsavedFastNodeRemovals][itkey[iter.fastIterator]] != nil
+//@   let ukey = ord(iter.unsavedFastNodesToSort[iter.nextUnsavedNodeIdx])
+//@   ensures [tie] old(both && !removed && itkey[iter.fastIterator] == ukey) ==> iter.nextUnsavedNodeIdx == old(iter.nextUnsavedNodeIdx) + 1
+//@   ensures [unsavedfirst] old(both && !removed && ((iter.ascending && itkey[iter.fastIterator] > ukey) || (!iter.ascending && itkey[iter.fastIterator] < ukey))) ==> iter.nextUnsavedNodeIdx == old(iter.nextUnsavedNodeIdx) + 1
+//@   ensures [diskfirst] old(both && !removed && ((iter.ascending && itkey[iter.fastIterator] < ukey) || (!iter.ascending && itkey[iter.fastIterator] > ukey))) ==> iter.nextUnsavedNodeIdx == old(iter.nextUnsavedNodeIdx) && ord(iter.nextKey) == old(itkey[iter.fastIterator])
+//@   modifies *
